@@ -7,6 +7,7 @@ import (
 	"time"
 
 	ipfslog "berty.tech/go-ipfs-log"
+	logac "berty.tech/go-ipfs-log/accesscontroller"
 	"berty.tech/go-ipfs-log/entry"
 	cid "github.com/ipfs/go-cid"
 	"verifharness/sim"
@@ -261,7 +262,21 @@ func c10Scenario(r *Run, si int) error {
 					return fmt.Errorf("sync refused an announcement without tampered head: %w", err)
 				}
 			} else {
-				g.emit(fmt.Sprintf("ELoad %s %s", sim.CoqN(ai), sim.CoqListN(g.nums(hs))))
+				// Sync hands the replicator only the heads its per-head check accepted (the access
+				// controller's verdict on the head itself; modelled and tied in C03/C04/C12): the
+				// request the replicator model sees consists of those heads, and there is no
+				// request at all when none is left
+				var passed []string
+				for k, h := range an.heads {
+					if g.store.AccessController().CanAppend(h, g.store.Identity().Provider, &c10AppendCtx{g.store.OpLog()}) == nil {
+						passed = append(passed, hs[k])
+					} else {
+						r.Count("c10:head-dropped-by-sync")
+					}
+				}
+				if len(passed) > 0 {
+					g.emit(fmt.Sprintf("ELoad %s %s", sim.CoqN(ai), sim.CoqListN(g.nums(passed))))
+				}
 				r.Count("c10:announcement-loaded")
 				if an.tampered {
 					r.Count("c10:tampered-head-not-refused")
@@ -367,4 +382,15 @@ func c10Scenario(r *Run, si int) error {
 		r.Count("c10:sig=" + sig)
 	}
 	return nil
+}
+
+type c10AppendCtx struct{ log ipfslog.Log }
+
+func (c *c10AppendCtx) GetLogEntries() []logac.LogEntry {
+	es := c.log.GetEntries().Slice()
+	out := make([]logac.LogEntry, len(es))
+	for i := range es {
+		out[i] = es[i]
+	}
+	return out
 }
